@@ -68,7 +68,7 @@ type Plan45 struct {
 	Ops        []Op45   `json:"ops"`
 }
 
-var forgeKinds = []string{"valid", "valid-300", "oversize-301", "unsorted", "dupkey", "badsig", "wrongid", "truncated", "seq-leading-zero"}
+var forgeKinds = []string{"bad-idsig", "valid", "valid-300", "oversize-301", "unsorted", "dupkey", "badsig", "wrongid", "truncated", "seq-leading-zero"}
 
 func genMsg45(r *simcore.Rand) *Msg45 {
 	m := &Msg45{Kind: byte(1 + r.Intn(6)), ReqID: hex.EncodeToString(r.Bytes(8)[:r.Intn(9)])}
@@ -421,7 +421,7 @@ func (w *world45) deliver(g *pkt45, to int, fromAddr string, raw []byte, pristin
 		if !usable {
 			w.res.Fault("handshake-without-matching-challenge")
 		}
-		if gotMsg && n != nil && g.forge != "" && g.forge != "valid" && g.forge != "valid-300" {
+		if gotMsg && n != nil && g.forge != "" && g.forge != "valid" && g.forge != "valid-300" && g.forge != "bad-idsig" {
 			if rb, _ := rlp.EncodeToBytes(n.Record()); bytes.Equal(rb, g.record) {
 				w.fail(simcore.Violf("forged-record-accepted", "node %d accepted the %s record of a hand-written handshake", to, g.forge))
 				return
@@ -537,8 +537,14 @@ func (w *world45) handleWhoareyou(r *node45, p *v5wire.Whoareyou) {
 	}
 	w.nextSess++
 	if c.forge != "" {
-		rec := forgeRecord(r, c.forge, w)
-		raw := forgeHandshake(r, dst, p.ChallengeData, rec, encMsg(c.msg))
+		rec, signKey := record, r.key
+		if c.forge == "bad-idsig" {
+			// the genuine record, but the identity proof is signed by somebody else's key
+			signKey = dst.key
+		} else {
+			rec = forgeRecord(r, c.forge, w)
+		}
+		raw := forgeHandshake(r, dst, signKey, p.ChallengeData, rec, encMsg(c.msg))
 		w.put(&pkt45{from: r.idx, to: c.to, raw: raw, kind: "handshake", msg: c.msg, sess: w.nextSess, cdata: append([]byte{}, p.ChallengeData...), record: rec, forge: c.forge})
 		return
 	}
@@ -792,7 +798,7 @@ func Run45(t *testing.T, pl any) *simcore.Result {
 
 // ---- a hand-written handshake packet (independent implementation of the wire spec)
 
-func forgeHandshake(src, dst *node45, cdata, record, msgPT []byte) []byte {
+func forgeHandshake(src, dst *node45, signKey *ecdsa.PrivateKey, cdata, record, msgPT []byte) []byte {
 	eph, err := crypto.GenerateKey()
 	if err != nil {
 		simcore.Harnessf("forge: %v", err)
@@ -803,7 +809,7 @@ func forgeHandshake(src, dst *node45, cdata, record, msgPT []byte) []byte {
 	h.Write(cdata)
 	h.Write(ephpub)
 	h.Write(dst.id[:])
-	sig, err := crypto.Sign(h.Sum(nil), src.key)
+	sig, err := crypto.Sign(h.Sum(nil), signKey)
 	if err != nil {
 		simcore.Harnessf("forge sign: %v", err)
 	}
